@@ -125,3 +125,20 @@ def fam_reported_shapes(d):
         "import functools\n@functools.lru_cache(maxsize=None)\ndef f(a):\n    return 'a long string constant that is used often'\nprint('a long string constant that is used often', 'a long string constant that is used often')\nprint('a long string constant that is used often', 'a long string constant that is used often', f({n}))\nprint('a long string constant that is used often', 'a long string constant that is used often')\n",
     ]).replace("{n}", str(n))
     return body
+
+
+def fam_deep_long_lines(d):
+    """A call of 40-110 characters nested 5-11 blocks deep: lines near the length limit at indentations where the
+    limit minus the indentation drops below black's minimum width."""
+    depth = d.int(5, 11)
+    args = [d.pick(["alpha", "beta_value", "gamma_long_argument", "delta", "epsilon_argument_name", "zeta", "eta_eta_eta"]) for _ in range(d.int(3, 8))]
+    kw = d.chance(3)
+    call = "combine(" + ", ".join(repr(a) for a in args) + (", last_keyword=1" if kw else "") + ")"
+    stmt = d.pick(["print({c})", "total = {c}\nprint(total)", "print({c}, {c2})"]).replace("{c}", call).replace("{c2}", repr("tail " * d.int(1, 6)))
+    lines = ["def combine(*a, **k):", "    return len(a) + len(k)", "flag = True"]
+    ind = ""
+    for j in range(depth):
+        lines.append(ind + d.pick(["if flag:", f"for k{j} in range(1):", "if flag and True:", f"for k{j} in [0]:"]))
+        ind += "    "
+    lines += [ind + l for l in stmt.split("\n")]
+    return "\n".join(lines) + "\n"
